@@ -592,3 +592,42 @@ def prec_scenario(rng, sid):
                          B=rng.chance(0.5), C=rng.chance(0.5))]]
         ops.append({"op": "exec", "inst": "i", "facts": st, "max": 6, "retErr": False, "cancelAt": None, "listeners": 0})
     return {"id": sid, "profile": "stable", "ops": ops, "syntax": True}
+
+
+def bytes_scenario(rng, sid):
+    """string literals with byte escapes >= 0x80 (\\xNN, \\NNN): Go strings that are not sequences of code points. The
+    model declines them (unmodelled); the documented Go meaning is checked on the real engine directly:
+    the literal has as many bytes as escapes/characters, and two spellings of the same bytes are equal."""
+    def lit(bs, q):
+        out = []
+        for b in bs:
+            if b >= 0x80 or rng.chance(0.3):
+                out.append(rng.choice(["\\x%02x" % b, "\\x%02X" % b, "\\%03o" % b]))
+            elif chr(b) in (q, "\\"):
+                out.append("\\" + chr(b))
+            else:
+                out.append(chr(b))
+        return q + "".join(out) + q
+    conds = []
+    expect = True
+    for _ in range(rng.range(1, 4)):
+        n = rng.range(1, 5)
+        bs = [rng.choice([0xe9, 0xff, 0x80, 0xc3, 0xa9, 0x41, 0x7a, 0x20, 0xfe]) for _ in range(n)]
+        q1, q2 = rng.choice(['"', "'"]), rng.choice(['"', "'"])
+        k = rng.below(4)
+        if k == 0:
+            conds.append("%s.Len() == %d" % (lit(bs, q1), n))
+        elif k == 1:
+            conds.append("%s == %s" % (lit(bs, q1), lit(bs, q2)))
+        elif k == 2:
+            other = list(bs)
+            other[rng.below(n)] ^= 0x01
+            conds.append("%s != %s" % (lit(bs, q1), lit(other, q2)))
+        else:
+            # the UTF-8 encoding of U+00E9 is two bytes, the byte 0xE9 is one
+            conds.append("\"\\xe9\".Len() + 1 == \"\\u00e9\".Len()")
+    text = "rule B salience 1 { when %s then F.I = 77; Retract(\"B\"); }" % " && ".join(conds)
+    ops = [{"op": "build", "lib": "L", "kb": "K", "wm": False, "text": text, "front": True, "ftext": [], "expect_ok": True},
+           {"op": "inst", "lib": "L", "kb": "K", "as": "i"},
+           {"op": "fetch", "inst": "i", "facts": [["F", fact(I=0)]], "retErr": True}]
+    return {"id": sid, "profile": "stable", "ops": ops, "bytes": True, "expect_match": expect, "no_oracle": True}
